@@ -19,6 +19,8 @@ type Program struct {
 	Note     string
 	Support  string // extra support source appended to support.go
 	Bounds   map[string][2]int // per family: {KL, KM} caps (stated in evidence)
+	Extra    string            // hand-written harness source appended to zz_spec.go (family "custom")
+	ExtraHs  []string          // names of the harness functions in Extra
 }
 
 func leafMsg() *M  { return msg("Leaf", nil, fld("Str", TString), fld("Num", TInt64)) }
@@ -190,6 +192,22 @@ func programs() []*Program {
 			c.ExcludeFields = []string{"A.Y.Z.Flag", "Shared.Num"}
 			return c
 		}})
+	add(&Program{Name: "P-custom", Quick: true, Families: []string{"custom", "schema"}, Support: customSupport, Extra: customHarness,
+		ExtraHs: []string{"Harness_Custom_To", "Harness_Custom_From"},
+		File: func() *FileSpec {
+			cu := msg("Cu", nil, fld("Own", TString), fld("C", TString).custom("StrCustom").nonnull().doc(" C is custom\n"),
+				fld("CL", TBool).custom("BoolCustom").rep(), fld("CfgC", TString))
+			return &FileSpec{Name: "p.proto", Msgs: []*M{cu}}
+		},
+		Cfg: func() *Config {
+			c := baseConfig("Cu")
+			c.CustomTypes = map[string]string{"Cu.CfgC": "pkg/sub.CfgCustom"}
+			c.Suffixes = map[string]string{"BoolCustom": "BoolSpecial"}
+			c.RequiredFields = []string{"Cu.C"}
+			c.SensitiveFields = []string{"Cu.CfgC"}
+			return c
+		}})
+
 	add(&Program{Name: "P-flags", Quick: true,
 		File: func() *FileSpec {
 			sub := msg("FlSub", nil, fld("X", TString).doc(" X of the sub message\n"), fld("Y", TString)).doc(" FlSub is nested\n")
@@ -225,3 +243,152 @@ func findProgram(name string) *Program {
 	}
 	return nil
 }
+
+// Support and harness of P-custom (C17): the three hooks record their calls and return values that
+// carry their arguments, so the harness can tell exactly what the generated code passed and stored.
+const customSupport = `
+type hookType struct{ attr.Type }
+
+func (hookType) Equal(o attr.Type) bool { _, ok := o.(hookType); return ok }
+
+// hookValue is what the CopyTo hooks return: it carries the arguments of the call.
+type hookValue struct {
+	attr.Value
+	Hook     string
+	Arg      string
+	ArgLen   int
+	TypeSeen bool
+	PrevSeen bool
+}
+
+var hookCalls = map[string]int{}
+
+func customAttrType_StrCustom() attr.Type     { return hookType{} }
+func customAttrType_BoolSpecial() attr.Type   { return hookType{} }
+func customAttrType_pkgsubCfgCustom() attr.Type { return hookType{} }
+
+func GenSchemaStrCustom(_ context.Context, a tfsdk.Attribute) tfsdk.Attribute { a.Type = hookType{}; return a }
+func GenSchemaBoolSpecial(_ context.Context, a tfsdk.Attribute) tfsdk.Attribute { a.Type = hookType{}; return a }
+func GenSchemapkgsubCfgCustom(_ context.Context, a tfsdk.Attribute) tfsdk.Attribute { a.Type = hookType{}; return a }
+
+func CopyToStrCustom(diags diag.Diagnostics, obj StrCustom, t attr.Type, v attr.Value) attr.Value {
+	hookCalls["CopyToStrCustom"]++
+	_, ok := t.(hookType)
+	return hookValue{Hook: "CopyToStrCustom", Arg: string(obj), TypeSeen: ok, PrevSeen: v != nil}
+}
+func CopyToBoolSpecial(diags diag.Diagnostics, obj []BoolCustom, t attr.Type, v attr.Value) attr.Value {
+	hookCalls["CopyToBoolSpecial"]++
+	_, ok := t.(hookType)
+	return hookValue{Hook: "CopyToBoolSpecial", ArgLen: len(obj), TypeSeen: ok, PrevSeen: v != nil}
+}
+func CopyTopkgsubCfgCustom(diags diag.Diagnostics, obj string, t attr.Type, v attr.Value) attr.Value {
+	hookCalls["CopyTopkgsubCfgCustom"]++
+	_, ok := t.(hookType)
+	return hookValue{Hook: "CopyTopkgsubCfgCustom", Arg: obj, TypeSeen: ok, PrevSeen: v != nil}
+}
+func CopyFromStrCustom(diags diag.Diagnostics, tf attr.Value, obj *StrCustom) {
+	hookCalls["CopyFromStrCustom"]++
+	if h, ok := tf.(hookValue); ok {
+		*obj = StrCustom(h.Arg)
+	}
+}
+func CopyFromBoolSpecial(diags diag.Diagnostics, tf attr.Value, obj *[]BoolCustom) {
+	hookCalls["CopyFromBoolSpecial"]++
+	if h, ok := tf.(hookValue); ok {
+		*obj = make([]BoolCustom, h.ArgLen)
+	}
+}
+func CopyFrompkgsubCfgCustom(diags diag.Diagnostics, tf attr.Value, obj *string) {
+	hookCalls["CopyFrompkgsubCfgCustom"]++
+	if h, ok := tf.(hookValue); ok {
+		*obj = h.Arg
+	}
+}
+`
+
+const customHarness = `
+func countWriteMissingC17(d diag.Diagnostics, path string) int {
+	n := 0
+	for _, x := range d {
+		if m, ok := x.(attrWriteMissingDiag); ok && m.Path == path {
+			n++
+		}
+	}
+	return n
+}
+
+// Harness_Custom_To: CopyTo stores exactly what CopyTo<S>(diags, field, attribute type, current attribute value) returned.
+func Harness_Custom_To() {
+	ctx := context.Background()
+	var obj Cu
+	havoc_Cu(&obj)
+	prev := vrt.Bool()
+	dropType := vrt.Bool()
+	at := attrTypes_Cu()
+	if dropType {
+		delete(at, "c")
+	}
+	tf := types.Object{AttrTypes: at}
+	if prev {
+		tf.Attrs = map[string]attr.Value{"c": hookValue{Hook: "previous"}, "cfg_c": hookValue{Hook: "previous"}}
+	}
+	hookCalls = map[string]int{}
+	d := CopyCuToTerraform(ctx, &obj, &tf)
+	vrt.CheckNoPanic("C17/Cu/copyto:no-panic")
+	v, ok := tf.Attrs["c"].(hookValue)
+	if dropType {
+		vrt.Assert("C17/Cu/c:missing-type-is-diagnostic", countWriteMissingC17(d, "Cu.C") == 1)
+		vrt.Assert("C17/Cu/c:hook-not-called-without-type", hookCalls["CopyToStrCustom"] == 0)
+	} else {
+		vrt.Assert("C17/Cu/c:stores-hook-result", ok && v.Hook == "CopyToStrCustom")
+		vrt.Assert("C17/Cu/c:hook-gets-field-value", v.Arg == string(obj.C))
+		vrt.Assert("C17/Cu/c:hook-gets-attribute-type", v.TypeSeen)
+		vrt.Assert("C17/Cu/c:hook-gets-current-value", v.PrevSeen == prev)
+		vrt.Assert("C17/Cu/c:hook-called-once", hookCalls["CopyToStrCustom"] == 1)
+	}
+	l, ok2 := tf.Attrs["cl"].(hookValue)
+	vrt.Assert("C17/Cu/cl:stores-hook-result", ok2 && l.Hook == "CopyToBoolSpecial" && l.ArgLen == len(obj.CL) && l.TypeSeen && !l.PrevSeen)
+	vrt.Assert("C17/Cu/cl:hook-called-once", hookCalls["CopyToBoolSpecial"] == 1)
+	c, ok3 := tf.Attrs["cfg_c"].(hookValue)
+	vrt.Assert("C17/Cu/cfg_c:configured-custom-type-uses-hook", ok3 && c.Hook == "CopyTopkgsubCfgCustom" && c.Arg == obj.CfgC && c.TypeSeen && c.PrevSeen == prev)
+	own, ok4 := tf.Attrs["own"].(types.String)
+	vrt.Assert("C17/Cu/own:ordinary-field-unaffected", ok4 && own.Value == obj.Own)
+	vrt.Reach("Custom/To/end")
+}
+
+// Harness_Custom_From: CopyFrom calls CopyFrom<S>(diags, attribute value, &field) exactly once and does not
+// otherwise write the field; a missing attribute is still reported.
+func Harness_Custom_From() {
+	ctx := context.Background()
+	arg := vrt.String()
+	n := vrt.Len(2)
+	missing := vrt.Bool()
+	prior := vrt.String()
+	tf := types.Object{AttrTypes: attrTypes_Cu(), Attrs: map[string]attr.Value{
+		"own": types.String{Value: "x"}, "c": hookValue{Arg: arg}, "cl": hookValue{ArgLen: n}, "cfg_c": hookValue{Arg: arg}}}
+	if missing {
+		delete(tf.Attrs, "c")
+	}
+	obj := Cu{C: StrCustom(prior)}
+	hookCalls = map[string]int{}
+	d := CopyCuFromTerraform(ctx, tf, &obj)
+	vrt.CheckNoPanic("C17/Cu/copyfrom:no-panic")
+	vrt.Assert("C17/Cu/c:copyfrom-hook-called-once", hookCalls["CopyFromStrCustom"] == 1)
+	nm := 0
+	for _, x := range d {
+		if m, ok := x.(attrReadMissingDiag); ok && m.Path == "Cu.C" {
+			nm++
+		}
+	}
+	if missing {
+		vrt.Assert("C17/Cu/c:missing-attribute-is-diagnostic", nm == 1)
+		vrt.Assert("C17/Cu/c:field-only-written-by-hook", string(obj.C) == prior)
+	} else {
+		vrt.Assert("C17/Cu/c:no-diagnostic", nm == 0)
+		vrt.Assert("C17/Cu/c:field-is-hook-result", string(obj.C) == arg)
+	}
+	vrt.Assert("C17/Cu/cl:field-is-hook-result", len(obj.CL) == n && hookCalls["CopyFromBoolSpecial"] == 1)
+	vrt.Assert("C17/Cu/cfg_c:field-is-hook-result", obj.CfgC == arg && hookCalls["CopyFrompkgsubCfgCustom"] == 1)
+	vrt.Reach("Custom/From/end")
+}
+`
